@@ -135,7 +135,7 @@ def run(case):
         stats["dense_cases_buffer_growth"] = 1
     nonempty = sum(1 for s in sizes if s)
     fired = 0
-    for cfg in ac.CONFIGS:
+    for cfg in ac.configs_for(case):
         name = ac.config_name(cfg)
         al, err, flt = ac.call_under(cfg, lambda: continuum.get_best_alignment(dissim))
         if cfg["mode"] != "none":
